@@ -13,6 +13,8 @@ def check(ctx):
     ctx.rule("C09.W4", "a failed write (or call) never releases its read node / consumers: no successor enqueue after a failure")
     ctx.rule("C09.W3", "literal pruning (barriers) bridges the full product of current neighbours before removal")
     ctx.assume("what a store's read returns is user code; run-time ordering then follows from C01")
+    from .engineeval import rule_engine_evaluated
+    ctx.run(rule_engine_evaluated, "C09.W1", None, ("order", "containment"))
     er = E.discover(ctx.model)
     rr = R.discover(ctx.model, er)
     ctx.run(S.rule_stale_table, "C09.W0", rr)
